@@ -59,12 +59,56 @@ type El struct {
 	Sep          string // white space written before each child and before the end tag
 	Embedded     bool   `json:",omitempty"` // a stanza inside a forwarding wrapper (has its own id and type)
 
+	// Character data of a stanza: Lead right after the start tag, Mid before
+	// every later child, Tail before the end tag.
+	Lead, Mid, Tail []Chunk `json:",omitempty"`
 	// Fill: number of extra white-space-only character data tokens (CDATA
 	// sections holding one blank) written before every child and the end tag.
 	Fill int `json:",omitempty"`
 	// QAttrs: namespace-qualified attributes named like the stanza attributes;
 	// they are not the stanza's id, type, to or from.
 	QAttrs []QAttr `json:",omitempty"`
+}
+
+// Chunk is a piece of character data and the way it is spelled.
+type Chunk struct {
+	Form string // plain | cdata | ref (numeric character references)
+	Text string
+}
+
+func (c Chunk) raw() string {
+	switch c.Form {
+	case "cdata":
+		return "<![CDATA[" + c.Text + "]]>"
+	case "ref":
+		s := ""
+		for _, r := range c.Text {
+			s += fmt.Sprintf("&#x%X;", r)
+		}
+		return s
+	}
+	return esc(c.Text)
+}
+
+func chunksRaw(cs []Chunk) string {
+	s := ""
+	for _, c := range cs {
+		s += c.raw()
+	}
+	return s
+}
+
+func chunksText(cs []Chunk) string {
+	s := ""
+	for _, c := range cs {
+		s += c.Text
+	}
+	return s
+}
+
+// xmlSpaceOnly: nothing but the white space of the XML grammar (S).
+func xmlSpaceOnly(s string) bool {
+	return strings.Trim(s, " \t\r\n") == ""
 }
 
 // QAttr is a qualified attribute on a stanza start tag.
@@ -162,19 +206,24 @@ func (e *El) raw(sb *strings.Builder, parentNS string, top bool) {
 			fmt.Fprintf(sb, " q%d:%s='%s'", k, q.Local, esc(q.Value))
 		}
 	}
-	if len(e.Kids) == 0 && e.Text == "" {
+	if len(e.Kids) == 0 && e.Text == "" && len(e.Lead) == 0 {
 		sb.WriteString("/>")
 		return
 	}
 	sb.WriteString(">")
 	sb.WriteString(esc(e.Text))
+	sb.WriteString(chunksRaw(e.Lead))
 	fill := strings.Repeat("<![CDATA[ ]]>", e.Fill)
-	for _, k := range e.Kids {
+	for i, k := range e.Kids {
+		if i > 0 {
+			sb.WriteString(chunksRaw(e.Mid))
+		}
 		sb.WriteString(e.Sep + fill)
 		k.raw(sb, e.Space, false)
 	}
 	if len(e.Kids) > 0 {
 		sb.WriteString(e.Sep + fill)
+		sb.WriteString(chunksRaw(e.Tail))
 	}
 	sb.WriteString("</" + e.Local + ">")
 }
@@ -208,6 +257,11 @@ type Expect struct {
 	// so either is accepted: Invoke/Fallback describe the default, OrWild the
 	// alternative.
 	OrWild *ExpInv
+
+	// Refused: an IQ whose payload is preceded by (or whose only content is)
+	// character data other than XML white space is not a legal IQ; it is not
+	// dispatched and nothing is written; an error out of HandleXMPP is accepted.
+	Refused bool
 }
 
 // ExpInv is one expected handler invocation.
@@ -291,8 +345,30 @@ func (r *refMux) expect(e *El) Expect {
 	}
 	typ := effectiveType(e)
 	x := Expect{Kind: e.Local, Shape: "children"}
+	lead := chunksText(e.Lead)
 	if len(e.Kids) == 0 {
 		x.Shape = "empty"
+		switch {
+		case lead == "":
+		case xmlSpaceOnly(lead):
+			if e.Local != "iq" {
+				// content, but no payload: not an empty stanza (its tokens are not
+				// just the start and the end element); nothing is due
+				x.Shape = "whitespace-only"
+				return x
+			}
+			// for an IQ the white space is formatting: as good as no content
+		default:
+			x.Shape = "text-only"
+			if e.Local == "iq" {
+				x.Refused = true
+			}
+			return x
+		}
+	} else if e.Local == "iq" && !xmlSpaceOnly(lead) {
+		x.Shape = "text-before-payload"
+		x.Refused = true
+		return x
 	}
 	switch e.Local {
 	case "iq":
@@ -405,6 +481,41 @@ func genChild(r *rand.Rand, depth int) *El {
 	return k
 }
 
+// character data alphabet: XML white space, Unicode White_Space that is not
+// XML white space, zero-width characters, text
+var (
+	xmlSpaces     = []string{" ", "\n", "\t", "\r\n", "  \n\t"}
+	unicodeSpaces = []string{"\u00a0", "\u0085", "\u2003", "\u3000", "\u2028", "\u1680", "\u00a0\u3000"}
+	zeroWidths    = []string{"\u200b", "\u200d", "\u2060"}
+	plainTexts    = []string{"hello", "x", "a<b&c", "é"}
+)
+
+func genChunks(r *rand.Rand, n int) []Chunk {
+	var out []Chunk
+	for i := 0; i < n; i++ {
+		var t string
+		switch r.Intn(8) {
+		case 0, 1:
+			t = xmlSpaces[r.Intn(len(xmlSpaces))]
+		case 2, 3, 4:
+			t = unicodeSpaces[r.Intn(len(unicodeSpaces))]
+			if r.Intn(3) == 0 {
+				t = xmlSpaces[r.Intn(len(xmlSpaces))] + t + xmlSpaces[r.Intn(len(xmlSpaces))]
+			}
+		case 5:
+			t = zeroWidths[r.Intn(len(zeroWidths))]
+		default:
+			t = plainTexts[r.Intn(len(plainTexts))]
+		}
+		form := []string{"plain", "plain", "cdata", "ref"}[r.Intn(4)]
+		if form == "cdata" && strings.Contains(t, "]]>") {
+			form = "plain"
+		}
+		out = append(out, Chunk{form, t})
+	}
+	return out
+}
+
 func genStanza(r *rand.Rand, kind, typ, ns string, id int) *El {
 	e := &El{Space: ns, Local: kind, Type: typ, ID: fmt.Sprintf("e%d", id), Sep: seps[r.Intn(len(seps))]}
 	e.From = froms[r.Intn(len(froms))]
@@ -432,6 +543,24 @@ func genStanza(r *rand.Rand, kind, typ, ns string, id int) *El {
 	}
 	if r.Intn(4) == 0 {
 		e.Fill = 1 + r.Intn(3)
+	}
+	// character data before, between and after the payloads, and stanzas whose
+	// only content is character data
+	if r.Intn(5) == 0 {
+		if nk == 0 {
+			e.Lead = genChunks(r, 1+r.Intn(2))
+		} else {
+			switch r.Intn(4) {
+			case 0:
+				e.Lead = genChunks(r, 1+r.Intn(2))
+			case 1:
+				e.Mid = genChunks(r, 1)
+			case 2:
+				e.Tail = genChunks(r, 1+r.Intn(2))
+			default:
+				e.Lead, e.Mid, e.Tail = genChunks(r, 1), genChunks(r, 1), genChunks(r, 1)
+			}
+		}
 	}
 	if r.Intn(6) == 0 {
 		other := map[string]string{"iq": "set", "message": "headline", "presence": "unavailable"}[kind]
@@ -644,6 +773,9 @@ func genCase(r *rand.Rand) *Case {
 	for _, e := range c.Els {
 		if e.Local == "iq" && e.NoType {
 			c.Served = false // whether the fallback answers an untyped IQ is left open
+		}
+		if e.Local == "iq" && !xmlSpaceOnly(chunksText(e.Lead)) {
+			c.Served = false // a refused IQ ends a served session
 		}
 	}
 	if r.Intn(6) == 0 {
